@@ -83,3 +83,72 @@ theorem mapErr_wpe_iff (e : Err)
   rcases he with rfl | rfl | rfl | rfl <;> decide
 
 end TapkeeVerif.Params
+
+namespace TapkeeVerif.Params
+open TapkeeVerif.Front TapkeeVerif.Gen TapkeeVerif.C14
+
+/-! ### the common prefix of `tapkee::embed`, in the order the generated step list gives -/
+
+theorem afterMerge_no_method (r : Request) (ps : PSet) (h : lookup .method ps.pmap = none) :
+    afterMerge r ps = (.error (.threw (errS .missed_parameter_error)), Counts.zero) := by
+  simp [afterMerge, frontSteps, runSteps, runStep, PSet.get, h, errS]
+
+theorem afterMerge_method_wrong_type (r : Request) (ps : PSet) (v : Val) (h : lookup .method ps.pmap = some v)
+    (hty : v.ty ≠ .method) :
+    afterMerge r ps = (.error (.threw (errS .wrong_parameter_type_error)), Counts.zero) := by
+  simp [afterMerge, frontSteps, runSteps, runStep, PSet.get, h, errS, convert, Kw.ty, hty]
+
+section Prefix
+variable (r : Request) (t : TypedVals) (ps : PSet) (hget : ∀ k, ps.get k = t.get k)
+include hget
+
+theorem prefix_no_data (hn : r.n = 0) :
+    afterMerge r ps = (.error (.threw (errT .no_data_error)), Counts.zero) := by
+  front_simp [hget, hn]
+
+theorem prefix_dimension (hn : r.n ≠ 0)
+    (hd : ¬ (1 ≤ (t.int .target_dimension : Rat) ∧ (t.int .target_dimension : Rat) < r.n)) :
+    afterMerge r ps = (.error (.threw (errS .wrong_parameter_error)), Counts.zero) := by
+  front_simp [hget, hn, hd]
+
+theorem prefix_cancel (hn : r.n ≠ 0)
+    (hd : 1 ≤ (t.int .target_dimension : Rat) ∧ (t.int .target_dimension : Rat) < r.n)
+    (hc : t.cancel .cancel_function = some true) :
+    afterMerge r ps = (.error (.threw (errT .cancelled_exception)), Counts.zero) := by
+  front_simp [hget, hn, hc, hd]
+
+theorem prefix_callbacks (hn : r.n ≠ 0)
+    (hd : 1 ≤ (t.int .target_dimension : Rat) ∧ (t.int .target_dimension : Rat) < r.n)
+    (hc : t.cancel .cancel_function ≠ some true) (hs : ¬ DeclaredSupplied (t.meth .method) r) :
+    afterMerge r ps = (.error (.threw (errT .unsupported_method_error)), Counts.zero) := by
+  have key : ((t.meth Kw.method).traits.needsKernel = true ∧ r.hasK = false) ∨
+      ((t.meth Kw.method).traits.needsDistance = true ∧ r.hasD = false) ∨
+      ((t.meth Kw.method).traits.needsFeatures = true ∧ r.hasF = false) := by
+    by_cases h1 : (t.meth Kw.method).traits.needsKernel = true ∧ r.hasK = false
+    · exact Or.inl h1
+    · by_cases h2 : (t.meth Kw.method).traits.needsDistance = true ∧ r.hasD = false
+      · exact Or.inr (Or.inl h2)
+      · by_cases h3 : (t.meth Kw.method).traits.needsFeatures = true ∧ r.hasF = false
+        · exact Or.inr (Or.inr h3)
+        · exfalso; apply hs
+          refine ⟨fun a => ?_, fun a => ?_, fun a => ?_⟩
+          · cases hb : r.hasK with | true => rfl | false => exact absurd ⟨a, hb⟩ h1
+          · cases hb : r.hasD with | true => rfl | false => exact absurd ⟨a, hb⟩ h2
+          · cases hb : r.hasF with | true => rfl | false => exact absurd ⟨a, hb⟩ h3
+  simp [afterMerge, frontSteps, runSteps, runStep, hget, TypedVals.get, TypedVals.val, Kw.ty, convert, Val.ty, hn,
+    runCheck, Val.num?, Pred.ty, Pred.holds, BExpr.eval, BExpr.isInt, hc, Rat.intCast_natCast, hd, Traits.needs, Request.has,
+    M.ite_apply, errS, errT]
+  by_cases h1 : (t.meth Kw.method).traits.needsKernel = true ∧ r.hasK = false
+  · simp [h1]
+  · by_cases h2 : (t.meth Kw.method).traits.needsDistance = true ∧ r.hasD = false
+    · simp [h1, h2]
+    · have h3 : (t.meth Kw.method).traits.needsFeatures = true ∧ r.hasF = false := by
+        rcases key with h | h | h
+        · exact absurd h h1
+        · exact absurd h h2
+        · exact h
+      simp [h1, h2, h3]
+
+end Prefix
+
+end TapkeeVerif.Params
